@@ -192,7 +192,7 @@ func ruleGuardIndex(c *Ctx, r *R) {
 					r.ok(key, c.Pos(instrPos(ins)), fmt.Sprintf("dominated by a test implying len >= %d", have))
 					continue
 				}
-				if why, ok := guardIndexReviewed[base]; ok {
+				if why, ok := reviewedLookup(guardIndexReviewed, base); ok {
 					r.ok("reviewed:"+key, c.Pos(instrPos(ins)), why)
 					continue
 				}
